@@ -4,7 +4,7 @@ import re
 from hypothesis import strategies as st
 
 from vlib import rivals
-from vlib.core import Part, Violation, Discard, call
+from vlib.core import call_twice, Part, Violation, Discard, call
 
 from mitxgraders import (FormulaGrader, NumericalGrader, MatrixGrader, SumGrader, ListGrader, RandomFunction,
                          DependentSampler)
@@ -108,8 +108,7 @@ def same_grades(a, b):
 
 
 def run(grader, inp, seed):
-    set_seed(seed)
-    return call(grader, None, list(inp) if isinstance(inp, list) else inp)
+    return call_twice(grader, lambda: set_seed(seed), None, list(inp) if isinstance(inp, list) else inp)
 
 
 def strip_sp(s):
